@@ -138,10 +138,12 @@ func (b *Buffer) writeAt(offset int64, data []byte) (int, error) {
 }
 
 // resumedWriter is the BlobWriter for an upload that has been resumed
-// at a given offset: the first Write made through it must start at that
-// offset. The check belongs to this writer, not to the upload,
+// at a given offset: what is written through it must follow on from that
+// offset. The position belongs to this writer, not to the upload,
 // so that two writers resumed on the same upload don't disarm
-// each other's check.
+// each other's check, and each Write is checked, not just the first,
+// so that data written through another writer in the meantime
+// isn't silently interleaved with this writer's.
 type resumedWriter struct {
 	*Buffer
 	mu sync.Mutex
@@ -154,9 +156,8 @@ func (w *resumedWriter) Write(data []byte) (int, error) {
 	w.mu.Lock()
 	defer w.mu.Unlock()
 	n, err := w.Buffer.writeAt(w.offset, data)
-	if err == nil {
-		// Only check on the first write, since it's the start offset.
-		w.offset = -1
+	if err == nil && w.offset != -1 {
+		w.offset += int64(n)
 	}
 	return n, err
 }
